@@ -45,6 +45,21 @@ func (timeoutErr) Is(err error) bool { return err == os.ErrDeadlineExceeded }
 
 var ErrTimeout error = timeoutErr{}
 
+// transientErr is what accept(2) gives under descriptor pressure or a read gives
+// when interrupted: temporary, not a timeout; the socket is as good as before.
+type transientErr struct{}
+
+//go:norace
+func (transientErr) Error() string { return "resource temporarily unavailable" }
+
+//go:norace
+func (transientErr) Timeout() bool { return false }
+
+//go:norace
+func (transientErr) Temporary() bool { return true }
+
+var ErrTransient net.Error = transientErr{}
+
 type opErr struct{ s string }
 
 //go:norace
@@ -597,6 +612,10 @@ type Listener struct {
 	closed  bool
 	Accepts int
 	Closes  int
+	// Transient lists which completed Accept calls (0-based, counted when a connection
+	// is there to be taken) fail with a temporary error instead, leaving the connection queued.
+	Transient []int
+	attempts  int
 }
 
 //go:norace
@@ -624,6 +643,14 @@ func (o *acceptOp) Done(now time.Time) {
 	if l.closed {
 		o.err = ErrClosed
 		return
+	}
+	l.attempts++
+	for _, t := range l.Transient {
+		if t == l.attempts-1 {
+			o.err = ErrTransient
+			l.n.K.BumpLocked("fault.accept_transient_error")
+			return
+		}
 	}
 	o.c = l.backlog[0]
 	o.c.Accepted = true
@@ -734,6 +761,10 @@ type PacketConn struct {
 	opN       int
 	Received  []*Datagram // in delivery order
 	Scribbled int
+	// Transient: which reads (0-based, counted when a datagram is there) fail with a
+	// temporary error instead, leaving the datagram queued.
+	Transient []int
+	attempts  int
 }
 
 // DgramConn is a client's connected datagram socket (net.Conn and
@@ -871,6 +902,16 @@ func (o *recvOp) Done(now time.Time) {
 	case expired(e.rdl, now):
 		o.err = ErrTimeout
 	default:
+		if o.pc != nil {
+			o.pc.attempts++
+			for _, t := range o.pc.Transient {
+				if t == o.pc.attempts-1 {
+					o.err = ErrTransient
+					e.n.K.BumpLocked("fault.read_transient_error")
+					return
+				}
+			}
+		}
 		d := e.rxq[0]
 		e.rxq = e.rxq[1:]
 		o.n = copy(o.p, d.Data)
